@@ -244,3 +244,437 @@ Proof.
     replace (match_gp (s2b " [" ++ text ++ s2b "]:")) with (@None bytes) by reflexivity.
     rewrite match_bracket_print; [reflexivity|exact Hne|exact H93].
 Qed.
+
+(* ------------------------------------------------------------------ *)
+(* 3. the function line                                                *)
+(* ------------------------------------------------------------------ *)
+
+(* the bytes that printed arguments are made of *)
+Definition args_byte (c : N) : bool :=
+  is_lower_hex c || (c =? 120) || (c =? 63) || (c =? 95) || (c =? 46) ||
+  (c =? 123) || (c =? 125) || (c =? 44) || (c =? 32).
+
+Lemma forallb_join : forall p l sep,
+  forallb p sep = true -> forallb (forallb p) l = true -> forallb p (join l sep) = true.
+Proof.
+  intros p l sep Hsep. induction l as [|x l IH]; [reflexivity|].
+  cbn [forallb]. intros H. apply andb_true_iff in H as [Hx Hl].
+  destruct l as [|y l]; [exact Hx|].
+  change (join (x :: y :: l) sep) with (x ++ sep ++ join (y :: l) sep).
+  rewrite !forallb_app, Hx, Hsep, (IH Hl). reflexivity.
+Qed.
+
+Lemma hex0x_args_byte : forall v, forallb args_byte (hex0x v) = true.
+Proof.
+  intros v. unfold hex0x. rewrite forallb_app. apply andb_true_iff. split; [reflexivity|].
+  generalize (N_to_hex_lower v). apply forallb_impl.
+  intros x Hx. unfold args_byte. rewrite Hx. reflexivity.
+Qed.
+
+(* nested induction on argument trees *)
+Fixpoint p_arg_ind' (P : p_arg -> Prop)
+  (Hval : forall v i, P (PVal v i)) (Htl : P PTooLarge)
+  (Hagg : forall fs el, Forall P fs -> P (PAgg fs el)) (a : p_arg) : P a :=
+  match a with
+  | PVal v i => Hval v i
+  | PTooLarge => Htl
+  | PAgg fs el =>
+      Hagg fs el ((fix go (l : list p_arg) : Forall P l :=
+                     match l with
+                     | [] => Forall_nil P
+                     | x :: l' => Forall_cons x (p_arg_ind' P Hval Htl Hagg x) (go l')
+                     end) fs)
+  end.
+
+Lemma items_args_byte : forall (l : list p_arg) (el : bool),
+  Forall (fun a => forallb args_byte (print_arg a) = true) l ->
+  forallb (forallb args_byte) (map print_arg l ++ (if el then [s2b "..."] else [])) = true.
+Proof.
+  intros l el H. rewrite forallb_app. apply andb_true_iff. split; [|destruct el; reflexivity].
+  induction H as [|x l Hx Hl IH]; [reflexivity|]. cbn [map forallb]. rewrite Hx, IH. reflexivity.
+Qed.
+
+Lemma print_arg_args_byte : forall a, forallb args_byte (print_arg a) = true.
+Proof.
+  induction a as [v i| |fs el IH] using p_arg_ind'.
+  - cbn [print_arg]. rewrite forallb_app, hex0x_args_byte. destruct i; reflexivity.
+  - reflexivity.
+  - cbn [print_arg]. rewrite !forallb_app. apply andb_true_iff. split; [reflexivity|].
+    apply andb_true_iff. split; [|reflexivity].
+    apply forallb_join; [reflexivity|]. apply items_args_byte. exact IH.
+Qed.
+
+Lemma print_args_args_byte : forall args el, forallb args_byte (print_args args el) = true.
+Proof.
+  intros args el. unfold print_args. apply forallb_join; [reflexivity|].
+  apply items_args_byte. apply Forall_forall. intros a _. apply print_arg_args_byte.
+Qed.
+
+Lemma print_args_no_byte : forall c args el, args_byte c = false -> no_byte c (print_args args el) = true.
+Proof. intros c args el Hc. apply (forallb_no_byte args_byte); [exact Hc|apply print_args_args_byte]. Qed.
+
+(* reFunc splits at the last '(' : the argument text has none *)
+Theorem match_func_print : forall sym argtext,
+  sym <> [] -> no_byte 40 argtext = true ->
+  match_func (sym ++ s2b "(" ++ argtext ++ s2b ")") = Some (sym, argtext).
+Proof.
+  intros sym argtext Hne H40. unfold match_func.
+  replace (sym ++ s2b "(" ++ argtext ++ s2b ")") with ((sym ++ 40 :: argtext) ++ [41])
+    by (rewrite <- app_assoc; reflexivity).
+  rewrite last_opt_app_cons, removelast_app1.
+  rewrite (last_index_byte_app sym 40 argtext H40).
+  destruct (List.length sym) as [|n] eqn:El; [destruct sym; [congruence|discriminate]|].
+  rewrite <- El, firstn_app_exact'.
+  replace (sym ++ 40 :: argtext) with ((sym ++ [40]) ++ argtext)
+    by (rewrite <- app_assoc; reflexivity).
+  replace (S (List.length sym)) with (List.length (sym ++ [40]))
+    by (rewrite app_length; cbn [List.length]; lia).
+  rewrite skipn_app_exact. reflexivity.
+Qed.
+
+Theorem match_func_print_line : forall s args el,
+  sym_raw s <> [] ->
+  match_func (print_func_line s args el) = Some (sym_raw s, print_args args el).
+Proof.
+  intros s args el Hne. unfold print_func_line. apply match_func_print; [exact Hne|].
+  apply print_args_no_byte. reflexivity.
+Qed.
+
+(* ------------------------------------------------------------------ *)
+(* 4. the file line                                                    *)
+(* ------------------------------------------------------------------ *)
+
+Lemma match_hexfield_print : forall lit v rest,
+  hd_fails is_lower_hex rest ->
+  match_hexfield (lit ++ s2b "0x") (lit ++ hex0x v ++ rest) = Some rest.
+Proof.
+  intros lit v rest Hrest. unfold match_hexfield, hex0x.
+  replace (lit ++ (s2b "0x" ++ N_to_hex false v) ++ rest)
+    with ((lit ++ s2b "0x") ++ N_to_hex false v ++ rest)
+    by (rewrite <- !app_assoc; reflexivity).
+  rewrite strip_prefix_app.
+  rewrite (span_app is_lower_hex); [|apply N_to_hex_lower|exact Hrest].
+  rewrite hex_nonempty_b. reflexivity.
+Qed.
+
+Lemma match_file_fp_print : forall regs, match_file_fp (print_regs regs) = true.
+Proof.
+  intros [[fp sp pc]|]; [|reflexivity].
+  unfold print_regs. cbn [r_fp r_sp r_pc].
+  unfold match_file_fp.
+  change (s2b " fp=" ++ hex0x fp ++ s2b " sp=" ++ hex0x sp ++
+          match pc with Some pc0 => s2b " pc=" ++ hex0x pc0 | None => [] end)
+    with (32 :: (s2b "fp=" ++ hex0x fp ++ s2b " sp=" ++ hex0x sp ++
+          match pc with Some pc0 => s2b " pc=" ++ hex0x pc0 | None => [] end)).
+  cbv iota.
+  change (32 :: (s2b "fp=" ++ hex0x fp ++ s2b " sp=" ++ hex0x sp ++
+          match pc with Some pc0 => s2b " pc=" ++ hex0x pc0 | None => [] end))
+    with (s2b " fp=" ++ hex0x fp ++ (s2b " sp=" ++ hex0x sp ++
+          match pc with Some pc0 => s2b " pc=" ++ hex0x pc0 | None => [] end)).
+  change (s2b " fp=0x") with (s2b " fp=" ++ s2b "0x").
+  rewrite match_hexfield_print by reflexivity.
+  change (s2b " sp=0x") with (s2b " sp=" ++ s2b "0x").
+  rewrite match_hexfield_print by (destruct pc; reflexivity).
+  destruct pc as [pc|]; [|reflexivity].
+  pose proof (match_hexfield_print (s2b " pc=") pc [] I) as E. rewrite app_nil_r in E.
+  change (s2b " pc=" ++ hex0x pc) with (32 :: (s2b "pc=" ++ hex0x pc)) in *. cbv iota.
+  change (s2b " pc=0x") with (s2b " pc=" ++ s2b "0x"). rewrite E. reflexivity.
+Qed.
+
+Definition file_tail (line : N) (off : option N) (regs : option p_regs) : bytes :=
+  s2b ":" ++ N_to_dec line ++ print_off off ++ print_regs regs.
+
+Lemma print_regs_hd : forall p regs, p 32 = false -> hd_fails p (print_regs regs).
+Proof. intros p [r|] Hp; [exact Hp|exact I]. Qed.
+
+Lemma match_file_tail_print : forall line off regs,
+  match_file_tail (file_tail line off regs) = Some (N_to_dec line).
+Proof.
+  intros line off regs. unfold file_tail, match_file_tail.
+  change (s2b ":" ++ N_to_dec line ++ print_off off ++ print_regs regs)
+    with (58 :: (N_to_dec line ++ print_off off ++ print_regs regs)).
+  cbv iota.
+  assert (Hhd : hd_fails is_digit (print_off off ++ print_regs regs)).
+  { destruct off as [o|]; [reflexivity|]. cbn [print_off app]. apply print_regs_hd. reflexivity. }
+  rewrite (span_app is_digit); [|apply N_to_dec_digits|exact Hhd].
+  rewrite dec_nonempty_b. cbn [negb].
+  destruct off as [o|].
+  - unfold print_off.
+    replace (match_file_fp ((s2b " +" ++ hex0x o) ++ print_regs regs)) with false by reflexivity.
+    rewrite <- app_assoc.
+    change (s2b " +0x") with (s2b " +" ++ s2b "0x").
+    rewrite match_hexfield_print by (apply print_regs_hd; reflexivity).
+    rewrite match_file_fp_print. reflexivity.
+  - cbn [print_off app]. rewrite match_file_fp_print. reflexivity.
+Qed.
+
+Lemma hex0x_no_dot : forall v, no_byte 46 (hex0x v) = true.
+Proof.
+  intros v. unfold hex0x. rewrite no_byte_app. apply andb_true_iff. split; [reflexivity|].
+  apply hex_no_byte. reflexivity.
+Qed.
+
+Lemma file_tail_no_dot : forall line off regs, no_byte 46 (file_tail line off regs) = true.
+Proof.
+  intros line off regs. unfold file_tail. rewrite !no_byte_app.
+  apply andb_true_iff. split; [reflexivity|].
+  apply andb_true_iff. split; [apply dec_no_byte; reflexivity|].
+  apply andb_true_iff. split.
+  - destruct off as [o|]; [|reflexivity]. unfold print_off. rewrite no_byte_app, hex0x_no_dot. reflexivity.
+  - destruct regs as [[fp sp pc]|]; [|reflexivity]. unfold print_regs. cbn [r_fp r_sp r_pc].
+    rewrite !no_byte_app, !hex0x_no_dot.
+    destruct pc as [pc|]; [rewrite no_byte_app, hex0x_no_dot|]; reflexivity.
+Qed.
+
+(* a text without '.' matches the tail grammar or not, but no extension starts in it *)
+Lemma ext_go_nodot : forall s pre, no_byte 46 s = true -> match_file_ext_go pre s = None.
+Proof.
+  induction s as [|x s IH]; intros pre H; [reflexivity|].
+  rewrite no_byte_cons in H. apply andb_true_iff in H as [Hx Hs].
+  cbn [match_file_ext_go]. rewrite (IH _ Hs).
+  destruct pre as [|y pre]; [reflexivity|].
+  apply negb_true_iff, N.eqb_neq in Hx.
+  unfold ext_len. destruct x as [|p]; [reflexivity|].
+  destruct (N.eq_dec (N.pos p) 46) as [E|E]; [congruence|].
+  do 6 (destruct p as [p|p|]; try reflexivity); congruence.
+Qed.
+
+Definition is_ext (e : bytes) : Prop := e = s2b ".go" \/ e = s2b ".c" \/ e = s2b ".s".
+
+Lemma ext_go_found : forall stem e tl ds pre,
+  is_ext e -> match_file_tail tl = Some ds -> no_byte 46 tl = true ->
+  (pre <> [] \/ stem <> []) ->
+  match_file_ext_go pre (stem ++ e ++ tl) = Some (rev pre ++ stem ++ e, ds).
+Proof.
+  induction stem as [|x stem IH]; intros e tl ds pre He Htl Hnd Hne.
+  - destruct Hne as [Hne|Hne]; [|congruence].
+    destruct pre as [|y pre]; [congruence|].
+    cbn [app]. destruct He as [-> | [-> | ->]].
+    + change (s2b ".go" ++ tl) with (46 :: (s2b "go" ++ tl)). cbn [match_file_ext_go].
+      rewrite ext_go_nodot by (rewrite no_byte_app, Hnd; reflexivity).
+      change (ext_len (46 :: s2b "go" ++ tl)) with (Some 3%nat). cbv iota.
+      change (skipn 3 (46 :: s2b "go" ++ tl)) with tl. rewrite Htl. reflexivity.
+    + change (s2b ".c" ++ tl) with (46 :: (s2b "c" ++ tl)). cbn [match_file_ext_go].
+      rewrite ext_go_nodot by (rewrite no_byte_app, Hnd; reflexivity).
+      change (ext_len (46 :: s2b "c" ++ tl)) with (Some 2%nat). cbv iota.
+      change (skipn 2 (46 :: s2b "c" ++ tl)) with tl. rewrite Htl. reflexivity.
+    + change (s2b ".s" ++ tl) with (46 :: (s2b "s" ++ tl)). cbn [match_file_ext_go].
+      rewrite ext_go_nodot by (rewrite no_byte_app, Hnd; reflexivity).
+      change (ext_len (46 :: s2b "s" ++ tl)) with (Some 2%nat). cbv iota.
+      change (skipn 2 (46 :: s2b "s" ++ tl)) with tl. rewrite Htl. reflexivity.
+  - cbn [app match_file_ext_go].
+    rewrite (IH e tl ds (x :: pre) He Htl Hnd) by (left; discriminate).
+    cbn [rev]. rewrite <- app_assoc. reflexivity.
+Qed.
+
+(* what the tail grammar accepts contains no '.' *)
+Lemma match_hexfield_spec : forall lit s r, match_hexfield lit s = Some r ->
+  exists h, s = lit ++ h ++ r /\ forallb is_lower_hex h = true.
+Proof.
+  intros lit s r H. unfold match_hexfield in H.
+  destruct (strip_prefix lit s) as [s1|] eqn:E1; [|discriminate].
+  destruct (span is_lower_hex s1) as [h s2] eqn:E2.
+  destruct (nonempty h); [|discriminate]. injection H as <-.
+  apply strip_prefix_spec in E1. apply span_spec in E2 as [E2 Hh].
+  exists h. subst s s1. split; [reflexivity|exact Hh].
+Qed.
+
+Lemma hexfield_no_dot : forall lit s r, no_byte 46 lit = true ->
+  match_hexfield lit s = Some r -> no_byte 46 s = no_byte 46 r.
+Proof.
+  intros lit s r Hlit H. destruct (match_hexfield_spec _ _ _ H) as (h & -> & Hh).
+  rewrite !no_byte_app, Hlit, (forallb_no_byte is_lower_hex 46 h eq_refl Hh). reflexivity.
+Qed.
+
+Lemma match_file_fp_nodot : forall s, match_file_fp s = true -> no_byte 46 s = true.
+Proof.
+  intros s H. unfold match_file_fp in H. destruct s as [|x s']; [reflexivity|].
+  destruct (match_hexfield (s2b " fp=0x") (x :: s')) as [s1|] eqn:E1; [|discriminate].
+  destruct (match_hexfield (s2b " sp=0x") s1) as [s2|] eqn:E2; [|discriminate].
+  rewrite (hexfield_no_dot (s2b " fp=0x") _ _ eq_refl E1), (hexfield_no_dot (s2b " sp=0x") _ _ eq_refl E2).
+  destruct s2 as [|y s2']; [reflexivity|].
+  destruct (match_hexfield (s2b " pc=0x") (y :: s2')) as [s3|] eqn:E3; [|discriminate].
+  rewrite (hexfield_no_dot (s2b " pc=0x") _ _ eq_refl E3).
+  destruct s3; [reflexivity|discriminate].
+Qed.
+
+Definition match_file_tail_body (s1 : bytes) : option bytes :=
+  let '(ds, s2) := span is_digit s1 in
+  if negb (nonempty ds) then None else
+  if match_file_fp s2 then Some ds else
+  match match_hexfield (s2b " +0x") s2 with
+  | Some s3 => if match_file_fp s3 then Some ds else None
+  | None => None
+  end.
+
+Lemma match_file_tail_cons : forall c s1,
+  match_file_tail (c :: s1) = if c =? 58 then match_file_tail_body s1 else None.
+Proof.
+  intros c s1. destruct c as [|p]; [reflexivity|].
+  do 6 (destruct p as [p|p|]; try reflexivity).
+Qed.
+
+Lemma match_file_tail_nodot : forall s ds, match_file_tail s = Some ds -> no_byte 46 s = true.
+Proof.
+  intros s ds H. destruct s as [|c s1]; [discriminate|].
+  rewrite match_file_tail_cons in H. destruct (c =? 58) eqn:Ec; [|discriminate].
+  apply N.eqb_eq in Ec. subst c. rewrite no_byte_cons. cbn [N.eqb Pos.eqb negb andb].
+  unfold match_file_tail_body in H.
+  destruct (span is_digit s1) as [d s2] eqn:E. apply span_spec in E as [-> Hd].
+  rewrite no_byte_app, (forallb_no_byte is_digit 46 d eq_refl Hd). cbn [andb].
+  destruct (negb (nonempty d)); [discriminate|].
+  destruct (match_file_fp s2) eqn:Efp; [apply match_file_fp_nodot; exact Efp|].
+  destruct (match_hexfield (s2b " +0x") s2) as [s3|] eqn:E3; [|discriminate].
+  destruct (match_file_fp s3) eqn:Efp3; [|discriminate].
+  rewrite (hexfield_no_dot (s2b " +0x") _ _ eq_refl E3). apply match_file_fp_nodot. exact Efp3.
+Qed.
+
+(* the shape of a well-formed file name *)
+Definition file_shape (f : bytes) : Prop :=
+  f = s2b "??" \/ f = s2b "<autogenerated>" \/
+  exists stem e, stem <> [] /\ is_ext e /\ f = stem ++ e.
+
+Lemma has_ext_spec : forall f e, has_ext f e = true -> exists stem, stem <> [] /\ f = stem ++ e.
+Proof.
+  intros f e H. unfold has_ext in H. apply andb_true_iff in H as [H1 H2].
+  apply Nat.ltb_lt in H2. pose proof (has_suffix_spec _ _ H1) as E.
+  exists (firstn (List.length f - List.length e) f). split; [|exact E].
+  intros C. apply (f_equal (@List.length N)) in C. rewrite firstn_length in C. cbn in C. lia.
+Qed.
+
+Lemma wf_file_spec : forall fi f, wf_file fi f = true ->
+  no_byte LF f = true /\ file_shape f /\ f <> [] /\
+  (match fi with FITab => True | FISpaces _ => hd_fails (N.eqb 32) f end).
+Proof.
+  intros fi f H. unfold wf_file in H.
+  apply andb_true_iff in H as [H H3]. apply andb_true_iff in H as [H1 H2].
+  assert (Hshape : file_shape f).
+  { apply orb_true_iff in H2 as [H2|H2]; [|right; right; destruct (has_ext_spec _ _ H2) as (st & Hst & E);
+      exists st, (s2b ".s"); unfold is_ext; tauto].
+    apply orb_true_iff in H2 as [H2|H2]; [|right; right; destruct (has_ext_spec _ _ H2) as (st & Hst & E);
+      exists st, (s2b ".c"); unfold is_ext; tauto].
+    apply orb_true_iff in H2 as [H2|H2]; [|right; right; destruct (has_ext_spec _ _ H2) as (st & Hst & E);
+      exists st, (s2b ".go"); unfold is_ext; tauto].
+    apply orb_true_iff in H2 as [H2|H2]; apply beq_eq in H2; [left|right; left]; exact H2. }
+  assert (Hne : f <> []).
+  { destruct Hshape as [-> | [-> | (st & e & Hst & _ & ->)]]; try discriminate.
+    destruct st; [congruence|discriminate]. }
+  split; [exact H1|]. split; [exact Hshape|]. split; [exact Hne|].
+  destruct fi as [|k]; [exact I|]. apply negb_true_iff in H3.
+  destruct f as [|x f]; [exact I|]. cbn [has_prefix] in H3. cbn [hd_fails]. rewrite N.eqb_sym.
+  destruct (N.eqb x 32); [|reflexivity]. destruct f; discriminate.
+Qed.
+
+Lemma is_ext_has_dot : forall e, is_ext e -> no_byte 46 e = false.
+Proof. intros e [-> | [-> | ->]]; reflexivity. Qed.
+
+Lemma match_file_body_print : forall f tl ds,
+  file_shape f -> match_file_tail tl = Some ds -> no_byte 46 tl = true ->
+  match_file_body (f ++ tl) = Some (f, ds).
+Proof.
+  intros f tl ds Hshape Htl Hnd. unfold match_file_body.
+  destruct Hshape as [-> | [-> | (stem & e & Hst & He & ->)]].
+  - rewrite strip_prefix_app, Htl. reflexivity.
+  - replace (strip_prefix (s2b "??") (s2b "<autogenerated>" ++ tl)) with (@None bytes) by reflexivity.
+    rewrite strip_prefix_app, Htl. reflexivity.
+  - assert (Halt : forall lit, no_byte 46 lit = true ->
+              match strip_prefix lit ((stem ++ e) ++ tl) with
+              | Some t => match match_file_tail t with Some ds0 => Some (lit, ds0) | None => None end
+              | None => None
+              end = None).
+    { intros lit Hlit. destruct (strip_prefix lit ((stem ++ e) ++ tl)) as [t|] eqn:E; [|reflexivity].
+      destruct (match_file_tail t) as [ds0|] eqn:Et; [|reflexivity].
+      apply match_file_tail_nodot in Et. apply strip_prefix_spec in E.
+      apply (f_equal (no_byte 46)) in E. rewrite !no_byte_app in E.
+      rewrite (is_ext_has_dot e He), Hlit, Et in E.
+      rewrite andb_false_r in E. discriminate. }
+    rewrite (Halt (s2b "??") eq_refl), (Halt (s2b "<autogenerated>") eq_refl).
+    rewrite <- app_assoc.
+    rewrite (ext_go_found stem e tl ds [] He Htl Hnd) by (right; exact Hst).
+    cbn [rev app]. reflexivity.
+Qed.
+
+Lemma span_repeat_32 : forall k r, hd_fails (N.eqb 32) r ->
+  span (N.eqb 32) (repeat 32 k ++ r) = (repeat 32 k, r).
+Proof.
+  intros k r Hr. apply span_app; [|exact Hr].
+  induction k as [|k IH]; [reflexivity|]. cbn [repeat forallb]. rewrite IH. reflexivity.
+Qed.
+
+(* (d) reFile on a printed file line *)
+Theorem match_file_print : forall fi file line off regs,
+  wf_file fi file = true -> (match fi with FISpaces k => (0 < k)%nat | FITab => True end) ->
+  match_file (print_file_line fi file line off regs) = Some (file, N_to_dec line).
+Proof.
+  intros fi file line off regs Hwf Hk.
+  destruct (wf_file_spec _ _ Hwf) as (_ & Hshape & Hne & Hsp).
+  unfold print_file_line. fold (file_tail line off regs).
+  pose proof (match_file_body_print file _ _ Hshape (match_file_tail_print line off regs)
+                (file_tail_no_dot line off regs)) as Hbody.
+  destruct fi as [|k].
+  - cbn [print_findent app match_file]. exact Hbody.
+  - destruct k as [|k]; [lia|]. cbn [print_findent].
+    assert (Hspan : span (N.eqb 32) (repeat 32 (S k) ++ file ++ file_tail line off regs)
+                    = (repeat 32 (S k), file ++ file_tail line off regs)).
+    { apply span_repeat_32. destruct file as [|x file]; [congruence|]. exact Hsp. }
+    unfold match_file. cbn [repeat app] in *. rewrite Hspan.
+    cbn [List.length match_file_spaces]. rewrite Hbody. reflexivity.
+Qed.
+
+(* Call.init on a non-empty file name is expCall *)
+Lemma call_init_call_of : forall f a ip file line,
+  file <> [] ->
+  call_init (mkCall f a [] 0 [] [] [] [] ip LocationUnknown) file (Z.of_N line) = call_of f a file line.
+Proof.
+  intros f a ip file line Hne. unfold call_init, call_of, b_slash.
+  destruct file as [|x file]; [congruence|].
+  cbn [RemoteSrcPath SrcName DirSrc CLocation CFunc CArgs LocalSrcPath RelSrcPath].
+  destruct (last_index_byte (x :: file) 47) as [i|]; [|reflexivity].
+  destruct (last_index_byte (firstn i (x :: file)) 47) as [j|]; reflexivity.
+Qed.
+
+Theorem parse_file_print : forall fi f a ip file line off regs,
+  wf_file fi file = true -> (match fi with FISpaces k => (0 < k)%nat | FITab => True end) ->
+  wf_num line = true ->
+  parse_file (mkCall f a [] 0 [] [] [] [] ip LocationUnknown) (print_file_line fi file line off regs)
+  = Some (call_of f a file line, None).
+Proof.
+  intros fi f a ip file line off regs Hwf Hk Hline. unfold parse_file.
+  rewrite (match_file_print fi file line off regs Hwf Hk), (atou_N_to_dec_wf line Hline).
+  rewrite call_init_call_of; [reflexivity|].
+  destruct (wf_file_spec _ _ Hwf) as (_ & _ & Hne & _). exact Hne.
+Qed.
+
+(* ------------------------------------------------------------------ *)
+(* 5. the other lines                                                  *)
+(* ------------------------------------------------------------------ *)
+
+Theorem match_created_print : forall r, r <> [] ->
+  match_created (s2b "created by " ++ r) = Some r.
+Proof.
+  intros r Hne. unfold match_created. rewrite strip_prefix_app.
+  destruct r; [congruence|reflexivity].
+Qed.
+
+Theorem match_unavail_print : forall fi,
+  (match fi with FISpaces k => (0 < k)%nat | FITab => True end) ->
+  match_unavail (print_findent fi ++ unavailable_text) = true.
+Proof.
+  intros [|k] Hk; [reflexivity|].
+  destruct k as [|k]; [lia|]. cbn [print_findent].
+  assert (Hspan : span (N.eqb 32) (repeat 32 (S k) ++ unavailable_text ++ [])
+                  = (repeat 32 (S k), unavailable_text ++ [])).
+  { apply span_repeat_32. reflexivity. }
+  rewrite app_nil_r in Hspan.
+  unfold match_unavail. cbn [repeat app] in *. rewrite Hspan. reflexivity.
+Qed.
+
+Theorem is_frames_elided_print : forall e, is_frames_elided (print_elide e) = true.
+Proof.
+  intros [|n]; [reflexivity|]. unfold is_frames_elided, print_elide.
+  apply orb_true_iff. right.
+  rewrite has_prefix_app. rewrite app_assoc, has_suffix_app. reflexivity.
+Qed.
+
+Lemma match_created_elide : forall e, match_created (print_elide e) = None.
+Proof. intros [|n]; reflexivity. Qed.
